@@ -476,7 +476,7 @@ func (fc *FuncCtx) contractCall(fr *Frame, st *State, com *ssa.CallCommon, key s
 		unsupported("call %s: %d args for %d params", key, len(args), len(names))
 	}
 	var borrows []func(post *State)
-	env := fc.env(st, st)
+	env := fc.env(st, fc.entry)
 	argTerms := make([]*Term, len(args))
 	for i := range args {
 		argTerms[i] = fc.argTerm(st, args[i], &borrows)
@@ -863,6 +863,10 @@ func (fc *FuncCtx) heapFrameTerm(st *State, key string) *Term {
 }
 
 func (fc *FuncCtx) frameObligations(final *State) {
+	if fc.spec.Allow["frame"] {
+		fc.v.notes[fc.key+": heap/world frame obligations are not generated (allow frame)"] = true
+		return
+	}
 	v := fc.v
 	c := v.c
 	entry := fc.entry
